@@ -10,7 +10,7 @@ from tt import Ctx
 
 # histories per tier: (count, ops per history)
 BUDGET = {
-    "quick": {"n": 160, "ops": 90},
+    "quick": {"n": 400, "ops": 100},
     "thorough": {"n": 4000, "ops": 160},
 }
 
@@ -21,7 +21,7 @@ def _q(focus):
 
 FOCUS = {
     "C01": {},  # every construction route, uniformly
-    "C02": {"ite": 5, "gc": 0.7},
+    "C02": {"ite": 5},
     "C03": {"bin": 4, "many": 5, "expr": 6, "not": 3},
     "C04": {"size": 5, "node": 3, "gc": 1.5, "dump": 8},
     "C05": {"gc": 5, "ite": 2, "dump": 4},
@@ -69,11 +69,37 @@ TITLES = {
 }
 
 
+# source files each property is anchored in (properties.jsonl anchors + what the operation actually runs through)
+ANCHORS = {
+    "C01": ["src/bdd.rs", "src/table.rs", "src/node.rs", "src/reference.rs", "src/utils.rs"],
+    "C02": ["src/bdd.rs", "src/cache.rs", "src/utils.rs", "src/table.rs"],
+    "C03": ["src/bdd.rs", "src/eval.rs"],
+    "C04": ["src/bdd.rs", "src/table.rs", "src/dot.rs"],
+    "C05": ["src/bdd.rs", "src/table.rs", "src/cache.rs"],
+    "C06": ["src/bdd.rs", "src/table.rs"],
+    "C07": ["src/cache.rs", "src/bdd.rs", "src/utils.rs"],
+    "C08": ["src/bdd.rs"], "C09": ["src/bdd.rs", "src/cache.rs"], "C10": ["src/bdd.rs"], "C11": ["src/bdd.rs", "src/utils.rs"], "C12": ["src/bdd.rs"],
+    "C13": ["src/sat.rs"], "C14": ["src/sat.rs", "src/paths.rs"], "C15": ["src/bdd.rs"],
+    "C16": ["src/dot.rs", "src/bdd.rs", "src/sat.rs", "src/paths.rs"],
+    "C17": ["src/table.rs", "src/bdd.rs", "src/node.rs", "src/utils.rs"],
+    "C18": ["src/cache.rs", "src/utils.rs"], "C19": ["src/raw.rs"],
+    "C20": ["examples/eda/src/ast.rs", "examples/eda/src/signal.rs"],
+}
+
+
+def escalation(pid):
+    """(factor, changed files): a larger budget when a source file the property is anchored in differs from the fingerprint"""
+    import fingerprint
+    ch = [f for f in fingerprint.changed_files() if f in ANCHORS.get(pid, [])]
+    return (4 if ch else 1), ch
+
+
 def bdd_histories(pid, tier, seed):
     """yields (name, lines, meta) for the generated stream of a Bdd-domain property"""
     b = BUDGET[tier]
+    factor = escalation(pid)[0] if tier == "quick" else 1
     master = random.Random((seed * 1000003) ^ hash_pid(pid))
-    for i in range(b["n"]):
+    for i in range(b["n"] * factor):
         hseed = master.randrange(1 << 48)
         rng = random.Random(hseed)
         nvars = rng.choice([3, 3, 4, 4, 5, 6]) if pid not in ("C13", "C14") else rng.choice([3, 4, 4, 5, 6])
@@ -210,14 +236,24 @@ def structured(pid, tier, seed):
             x = rng.random()
             if x < 0.2:
                 h = c.one
-            elif x < 0.3:
-                g, h = 0, f
             elif x < 0.4:
+                h = 0
+            elif x < 0.5:
+                g, h = 0, f
+            elif x < 0.6:
                 h = c.neg(g)
             chunk.append("itec %d %d %d" % (reg[f], reg[g], reg[h]))
-            if x < 0.15:
-                chunk.append("ite %d %d %d" % (reg[f], reg[g], reg[h]))      # cache the instance, then ask again
+            if rng.random() < 0.3:
+                # cache the instance through the operation that computes it, then ask again
+                if h == 0 and rng.random() < 0.7:
+                    chunk.append("and %d %d" % (reg[f], reg[g]))
+                elif h == c.one and rng.random() < 0.7:
+                    chunk.append("imply %d %d" % (reg[f], reg[g]))
+                else:
+                    chunk.append("ite %d %d %d" % (reg[f], reg[g], reg[h]))
                 chunk.append("itec %d %d %d" % (reg[f], reg[g], reg[h]))
+                if h == c.one:
+                    chunk.append("implies %d %d" % (reg[f], reg[g]))
             if len(chunk) >= 4000:
                 yield ("itec3-%d" % k, lines0 + chunk, {"kind": "3var-itec"})
                 chunk, k = [], k + 1
